@@ -8,11 +8,18 @@ import scenes as S
 import pipeline as P
 
 NOT_CARRIED = [
-    "the link between a point's two roles (receiver factor = 4 x source share / area) IS proved for the model of "
-    "pt_solution (C09_roles_linked); that the point's visibility is the same in both roles is an input of "
-    "C09_model (it is C07's symmetric line of sight) and is checked by the search",
+    "the link between a point's two roles IS proved, for the composed room model too (C09_room_reciprocal): receiver "
+    "factor = 4 x source share / area from the model of pt_solution and the room's own areas (C09_roles_linked), one "
+    "visibility vector per position for both roles; what stays a hypothesis of the room theorem: non-zero patch "
+    "areas, ceiling bin = truncation bin + 1 on the legs to VISIBLE patches (follows from 'no leg length is a "
+    "multiple of c*dt', C09_room_reciprocal_ordered; the search re-draws such legs), one outgoing slot and BRDF "
+    "tables constant over the incoming samples (directional BRDFs are outside the theorem)",
     "histograms too short for the delayed patch energy (np.roll wrap, known finding C02/receiver_wrap) are outside "
-    "C09_model's 'fits' hypothesis; the search uses windows holding every arrival",
+    "the 'fits' hypothesis of C09_model_vis / C09_room_reciprocal; the search uses windows holding every arrival",
+    "C09_model (kept) asks its diffuse / link / fits hypotheses of ALL indices and is thereby restricted to "
+    "reflectance 0 (C09_model_diffuse_everywhere_forces_zero); the statement that carries the property is "
+    "C09_model_vis and its room instance; that the visibility scan of the room is the geometric line of sight is "
+    "C07, not re-proved here",
 ]
 
 
